@@ -45,6 +45,9 @@ pub struct Scenario {
     pub per_item: bool,
     /// lex from a private allocation of exactly the view's length
     pub exact_alloc: bool,
+    /// build lexers with `partial_with_extras` / `with_extras` (what a consumer that carries extras uses) instead of
+    /// `new_partial` / `new`
+    pub with_extras: bool,
     pub events: Vec<Ev>,
 }
 
@@ -85,6 +88,7 @@ impl Scenario {
             "input_text": show_bytes(&self.input),
             "driver": if self.per_item { "A" } else { "B" },
             "exact_alloc": self.exact_alloc,
+            "constructor": if self.with_extras { "partial_with_extras" } else { "new_partial" },
             "events": self.events.iter().map(|e| e.to_json()).collect::<Vec<_>>(),
         })
     }
@@ -94,6 +98,7 @@ impl Scenario {
             input: from_hex(v.get("input_hex")?.as_str()?)?,
             per_item: v.get("driver")?.as_str()? == "A",
             exact_alloc: v.get("exact_alloc")?.as_bool()?,
+            with_extras: v.get("constructor").and_then(|c| c.as_str()) == Some("partial_with_extras"),
             events: v.get("events")?.as_array()?.iter().map(Ev::from_json).collect::<Option<Vec<_>>>()?,
         })
     }
@@ -352,7 +357,7 @@ impl<'a> Driver<'a> {
         if self.sc.per_item {
             // variant A: a fresh lexer per item, on the rest of the valid buffer
             loop {
-                let out = self.def.lex(&view[pos..], partial, 0, 1);
+                let out = self.def.lex_with(&view[pos..], partial, self.sc.with_extras, 0, 1);
                 self.stats.steps += out.calls as u64;
                 round_items += 1;
                 if round_items > cap {
@@ -391,7 +396,7 @@ impl<'a> Driver<'a> {
             }
         } else {
             // variant B: one lexer per fill
-            let out = self.def.lex(view, partial, 0, cap);
+            let out = self.def.lex_with(view, partial, self.sc.with_extras, 0, cap);
             self.stats.steps += out.calls as u64;
             if out.none_span.is_none() {
                 fail!("L1", "runaway", "definition {}: more than {} items from a {}-byte buffer", self.def.name, cap, vlen);
@@ -763,7 +768,10 @@ fn scenario_for(world: &World, seed: u64, index: u64, max_len: usize) -> (usize,
     let input = gen_input(&mut irng, def, rf, max_len);
     let mut rng = Rng::for_run(seed, "stream-sim", index);
     let events = gen_events(&mut rng, input.len(), variant < 5);
-    let sc = Scenario { def: def.name.to_string(), input, per_item: rng.chance(1, 2), exact_alloc: rng.chance(1, 2), events };
+    let per_item = rng.chance(1, 2);
+    let exact_alloc = rng.chance(1, 2);
+    let with_extras = rng.chance(1, 3);
+    let sc = Scenario { def: def.name.to_string(), input, per_item, exact_alloc, with_extras, events };
     (di, sc)
 }
 
@@ -841,6 +849,9 @@ fn minimise(world: &World, sc: &Scenario, v: &Violation) -> (Scenario, Violation
         for k in 0..2 {
             let mut t = best.clone();
             if k == 0 { t.exact_alloc = false; } else { t.per_item = false; }
+            if budget > 0 { budget -= 1; if fails(&t) { best = t.clone(); } }
+            let mut t = best.clone();
+            t.with_extras = false;
             if budget > 0 { budget -= 1; if fails(&t) { best = t; } }
         }
         // smaller read sizes are not simpler; but merge: Read(a),Read(b) -> Read(a+b)
